@@ -24,13 +24,125 @@ func isAncestor(a, b *etree.Element) bool {
 	return false
 }
 
-var garble = []string{"", " ", "x", "0", "-1", "true", "2.0", "1.1", "é", "urn:x", "http://x", "javascript:alert(1)", "9999-99-99T99:99:99Z", "2024-03-10T12:00:00Z", "#", "&", "<", "id-1", strings.Repeat("A", 70000)}
+var garble = []string{"", " ", "x", "0", "-1", "true", "2.0", "1.1", "é", "urn:x", "http://x", "javascript:alert(1)", "9999-99-99T99:99:99Z", "2024-03-10T12:00:00Z", "#", "&", "<", "id-1", strings.Repeat("A", 70000),
+	// characters that mean something to path / template / format / PEM / base64 / URI handling code
+	"'", "\"", "it's", "#it's", "a'b\"c", "[", "]", "a[1]", "x[@y='z']", "*", "//", "..", "../..", "{{.}}", "%s%n%d", "${x}", "$(x)", "\\", "a\tb", "a\nb",
+	"-----BEGIN CERTIFICATE-----", "-----BEGIN CERTIFICATE-----\nMIIB", "-----BEGIN CERTIFICATE-----MIIB-----END CERTIFICATE-----", "-----END CERTIFICATE----------BEGIN CERTIFICATE-----", "-----BEGIN CERTIFICATE-----\n-----END CERTIFICATE-----",
+	"====", "A", "AA==", "A===", "QUJD", " QUJD ", "QUJD\nQUJD", "#_0", "#", "cid:x", "urn:", "http://", "http://[::1", "%zz", "%00", "\u202e", "\ufeff", "0x10", "1e9", "+1", "01", "-0", "NaN"}
+
+// Dictionary returns the hostile string dictionary (without the very long entry).
+func Dictionary() []string {
+	var out []string
+	for _, g := range garble {
+		if len(g) < 1000 {
+			out = append(out, g)
+		}
+	}
+	return out
+}
+
+// vocab lists elements a message may legally carry but the generated ones usually do not, with the elements they belong under.
+var vocab = []struct {
+	tag   string
+	hosts []string
+	attrs []string
+	text  bool
+}{
+	{"ds:RetrievalMethod", []string{"KeyInfo"}, []string{"URI", "Type"}, false},
+	{"ds:KeyName", []string{"KeyInfo"}, nil, true},
+	{"ds:X509Certificate", []string{"X509Data"}, nil, true},
+	{"ds:X509Data", []string{"KeyInfo"}, nil, false},
+	{"ds:KeyInfo", []string{"EncryptedData", "EncryptedKey", "Signature", "SubjectConfirmationData"}, []string{"Id"}, false},
+	{"xenc:EncryptedKey", []string{"EncryptedAssertion", "KeyInfo", "EncryptedData"}, []string{"Id", "Recipient"}, false},
+	{"xenc:CipherData", []string{"EncryptedKey", "EncryptedData"}, nil, false},
+	{"xenc:CipherValue", []string{"CipherData"}, nil, true},
+	{"xenc:CipherReference", []string{"CipherData"}, []string{"URI"}, false},
+	{"xenc:ReferenceList", []string{"EncryptedKey"}, nil, false},
+	{"xenc:DataReference", []string{"ReferenceList", "EncryptedKey"}, []string{"URI"}, false},
+	{"xenc:CarriedKeyName", []string{"EncryptedKey"}, nil, true},
+	{"xenc:EncryptionMethod", []string{"EncryptedKey", "EncryptedData"}, []string{"Algorithm"}, false},
+	{"ds:DigestMethod", []string{"EncryptionMethod", "Reference"}, []string{"Algorithm"}, false},
+	{"xenc:OAEPparams", []string{"EncryptionMethod"}, nil, true},
+	{"ds:Object", []string{"Signature"}, []string{"Id"}, false},
+	{"ds:Reference", []string{"SignedInfo"}, []string{"URI", "Type"}, false},
+	{"ds:Transform", []string{"Transforms"}, []string{"Algorithm"}, false},
+	{"ec:InclusiveNamespaces", []string{"Transform", "CanonicalizationMethod"}, []string{"PrefixList", "xmlns:ec"}, false},
+	{"samlp:Extensions", []string{"Response", "ArtifactResponse", "LogoutResponse", "AuthnRequest"}, nil, false},
+	{"samlp:StatusMessage", []string{"Status"}, nil, true},
+	{"samlp:StatusDetail", []string{"Status"}, nil, false},
+	{"samlp:StatusCode", []string{"StatusCode"}, []string{"Value"}, false},
+	{"saml:Advice", []string{"Assertion"}, nil, false},
+	{"saml:AssertionIDRef", []string{"Advice", "Evidence"}, nil, true},
+	{"saml:AssertionURIRef", []string{"Advice"}, nil, true},
+	{"saml:EncryptedID", []string{"Subject", "SubjectConfirmation"}, nil, false},
+	{"saml:BaseID", []string{"Subject"}, []string{"NameQualifier", "xsi:type"}, false},
+	{"saml:OneTimeUse", []string{"Conditions"}, nil, false},
+	{"saml:ProxyRestriction", []string{"Conditions"}, []string{"Count"}, false},
+	{"saml:AuthzDecisionStatement", []string{"Assertion"}, []string{"Resource", "Decision"}, false},
+	{"saml:EncryptedAttribute", []string{"AttributeStatement"}, nil, false},
+	{"saml:SubjectLocality", []string{"AuthnStatement"}, []string{"Address", "DNSName"}, false},
+	{"saml:AuthenticatingAuthority", []string{"AuthnContext"}, nil, true},
+	{"saml:AuthnContextDeclRef", []string{"AuthnContext"}, nil, true},
+	{"saml:SubjectConfirmationData", []string{"SubjectConfirmation"}, []string{"NotBefore", "NotOnOrAfter", "Recipient", "InResponseTo", "Address"}, false},
+	{"saml:NameID", []string{"SubjectConfirmation", "Subject"}, []string{"Format", "NameQualifier", "SPNameQualifier", "SPProvidedID"}, true},
+}
 
 // Struct applies one random structural mutation in place and describes it.
 func Struct(r *mrand.Rand, root *etree.Element) string {
 	els := all(root)
 	pick := func() *etree.Element { return els[r.Intn(len(els))] }
-	switch r.Intn(16) {
+	switch r.Intn(20) {
+	case 16, 17: // insert an element of the SAML / XML-DSig / XML-Enc vocabulary that the document did not have, with hostile attribute values
+		v := vocab[r.Intn(len(vocab))]
+		var hosts []*etree.Element
+		for _, e := range els {
+			for _, h := range v.hosts {
+				if e.Tag == h {
+					hosts = append(hosts, e)
+				}
+			}
+		}
+		if len(hosts) == 0 {
+			hosts = []*etree.Element{pick()}
+		}
+		h := hosts[r.Intn(len(hosts))]
+		n := etree.NewElement(v.tag)
+		for _, a := range v.attrs {
+			n.CreateAttr(a, garble[r.Intn(len(garble)-1)])
+		}
+		if v.text {
+			n.SetText(garble[r.Intn(len(garble)-1)])
+		}
+		if r.Intn(2) == 0 {
+			h.InsertChildAt(0, n)
+		} else {
+			h.AddChild(n)
+		}
+		return "vocab:" + v.tag + "->" + h.Tag
+	case 18, 19: // garble the attribute or text of a security-relevant node
+		var cands []*etree.Element
+		for _, e := range els {
+			switch e.Tag {
+			case "X509Certificate", "CipherValue", "DigestValue", "SignatureValue", "Reference", "RetrievalMethod", "EncryptedKey", "EncryptedData", "EncryptionMethod", "DigestMethod", "SignatureMethod", "CanonicalizationMethod", "Transform", "KeyName", "NameID", "Audience", "StatusCode", "AuthnContextClassRef", "DataReference":
+				cands = append(cands, e)
+			}
+		}
+		if len(cands) == 0 {
+			return "noop"
+		}
+		e := cands[r.Intn(len(cands))]
+		g := garble[r.Intn(len(garble)-1)]
+		if len(e.Attr) > 0 && r.Intn(2) == 0 {
+			i := r.Intn(len(e.Attr))
+			e.Attr[i].Value = g
+			return "target-attr:" + e.Tag + "@" + e.Attr[i].Key + "=" + short(g)
+		}
+		if len(e.ChildElements()) == 0 {
+			e.SetText(g)
+			return "target-text:" + e.Tag + "=" + short(g)
+		}
+		e.CreateAttr([]string{"Id", "URI", "Algorithm", "Type"}[r.Intn(4)], g)
+		return "target-addattr:" + e.Tag + "=" + short(g)
 	case 0, 1: // delete element
 		e := pick()
 		if e != root && e.Parent() != nil {
